@@ -954,6 +954,22 @@ def _check_cc(api):
            z3.Implies(z3.And(is_('ecdsa'), V_LE(tv(ver), vtup(3, 3))), V_IN(cands[0], ecc)))
         OB(api, st, 'certchain:EdDSA-certificate-not-below-TLS1.2',
            FALSE if ver is None else z3.Implies(z3.Or(is_('Ed25519'), is_('Ed448')), z3.Not(V_LT(tv(ver), vtup(3, 3)))))
+    # C19 "compatible settings connect": a certificate is refused only for a documented reason.  settings.eccCurves
+    # governs the certificate's curve in TLS <= 1.2 only; in TLS 1.3 eccCurves names key-exchange groups and the
+    # certificate is governed by the signature schemes (RFC 8446 4.2.3 / 4.2.7)
+    k_hf = 0
+    for o in api.raise_exits(NoReturn):
+        a = o.val.args[0] if o.val.args else None
+        if not (isinstance(a, VInt) and z3.is_int_value(z3.simplify(a.t)) and
+                z3.simplify(a.t).as_long() == AlertDescription.handshake_failure):
+            continue
+        k_hf += 1
+        st = o.st
+        ct = tv(st.env['cert_type'])
+        ver = st.heap.get((st.env['self'].oid, 'version'))
+        OB(api, st, 'certchain:refusal-for-a-curve-outside-eccCurves-only-in-TLS<=1.2#%d' % k_hf,
+           FALSE if ver is None else z3.Implies(ct == to_val(VStr('ecdsa')), V_LE(tv(ver), vtup(3, 3))))
+    OB(api, api.entry, 'certchain:cover:curve-refusal-exit-examined', k_hf >= 1)
 
 
 def _in_terms(pc, container):
@@ -970,7 +986,7 @@ def _in_terms(pc, container):
     return out
 
 
-task_pair('_check_certchain_with_settings/peer-key-inside-settings', ('C03', 'C05'), TC + '_check_certchain_with_settings',
+task_pair('_check_certchain_with_settings/peer-key-inside-settings', ('C03', 'C05', 'C19'), TC + '_check_certchain_with_settings',
        SPEC_CC, check=_check_cc, opts=OPTS2, setup=_setup_fields('version'),
        doc='returns cert_chain.getEndEntityPublicKey(); RSA/DSA size within [minKeySize, maxKeySize]; EdDSA / ML-DSA '
            'only when enabled in more_sig_schemes; ECDSA curve (<=1.2) in settings.eccCurves')
